@@ -16,6 +16,10 @@ package lrucache
 // target is rooted at a guarded field or at a local variable obtained from one (pointer alias),
 // delete(field, …), any call receiving &field, any method call on a guarded field that is not in
 // the small list of read-only methods.  Everything else mentioning a guarded field is a read.
+// A call recv.M() of another method of the same type contributes M's critical sections; a method
+// whose accesses lie in two or more own regions, or that has a reading region followed by a
+// writing region (check-then-act, also through such calls), is reported as `split`.  A method that
+// only strings together complete operations of other methods (PopWithTimer polling Pop) is `pure`.
 
 import (
 	"go/ast"
@@ -29,7 +33,8 @@ var ltPureMethods = map[string]bool{"Len": true, "Back": true, "Front": true}
 
 type ltSeg struct {
 	mode   string
-	access int // 0 pure 1 reads 2 writes
+	access int  // 0 pure 1 reads 2 writes
+	call   bool // the region is a call of another locking method of the same receiver
 }
 
 var ltAccessName = []string{"pure", "reads", "writes"}
@@ -43,6 +48,7 @@ type ltAnalysis struct {
 	mode      string
 	maxMode   string
 	segs      []ltSeg
+	callee    map[string][]ltSeg // second pass: the critical sections of the type's own methods
 }
 
 func ltIsMutexType(e ast.Expr) bool {
@@ -152,7 +158,7 @@ func (a *ltAnalysis) root(e ast.Expr) (field string, taintedLocal bool, depth in
 
 func (a *ltAnalysis) note(access int) {
 	if len(a.segs) == 0 {
-		a.segs = append(a.segs, ltSeg{a.mode, 0})
+		a.segs = append(a.segs, ltSeg{a.mode, 0, false})
 	}
 	if n := len(a.segs); access > a.segs[n-1].access {
 		a.segs[n-1].access = access
@@ -223,7 +229,7 @@ func (a *ltAnalysis) aliasSource(e ast.Expr) bool {
 // setMode starts a new lock region (every Lock/Unlock call is a region boundary).
 func (a *ltAnalysis) setMode(m string) {
 	a.mode = m
-	a.segs = append(a.segs, ltSeg{m, 0})
+	a.segs = append(a.segs, ltSeg{m, 0, false})
 	rank := map[string]int{"none": 0, "RLock": 1, "Lock": 2}
 	if rank[m] > rank[a.maxMode] {
 		a.maxMode = m
@@ -286,6 +292,24 @@ func (a *ltAnalysis) walk(n ast.Node) {
 		case *ast.IncDecStmt:
 			a.noteWriteTarget(x.X)
 		case *ast.CallExpr:
+			// recv.M(...) where M is a method of the same type with its own critical section(s):
+			// those sections belong to this method's behaviour (check-then-act detection)
+			if sel, ok := x.Fun.(*ast.SelectorExpr); ok && a.callee != nil {
+				if id, ok := sel.X.(*ast.Ident); ok && id.Name == a.recv {
+					if cs := a.callee[sel.Sel.Name]; len(cs) > 0 {
+						if a.mode != "none" {
+							for _, c := range cs { // called while already holding a lock
+								a.note(c.access)
+							}
+						} else {
+							for _, c := range cs {
+								a.segs = append(a.segs, ltSeg{c.mode, c.access, true})
+							}
+							a.segs = append(a.segs, ltSeg{a.mode, 0, false})
+						}
+					}
+				}
+			}
 			if id, ok := x.Fun.(*ast.Ident); ok && id.Name == "delete" && len(x.Args) > 0 {
 				if f, t, _ := a.root(x.Args[0]); f != "" || t {
 					a.note(2)
@@ -375,18 +399,9 @@ func ltTable(file, typ string, immutable []string) (map[string]string, error) {
 		imm[i] = true
 		delete(fields, i)
 	}
-	out := map[string]string{}
-	for _, d := range f.Decls {
-		fd, ok := d.(*ast.FuncDecl)
-		if !ok || fd.Body == nil {
-			continue
-		}
-		t, recv := ltRecvTypeName(fd)
-		if t != typ {
-			continue
-		}
+	analyse := func(fd *ast.FuncDecl, recv string, callee map[string][]ltSeg) (*ltAnalysis, []ltSeg) {
 		a := &ltAnalysis{recv: recv, guarded: fields, immutable: imm, mutexes: mutexes,
-			tainted: map[string]bool{}, mode: "none", maxMode: "none"}
+			tainted: map[string]bool{}, mode: "none", maxMode: "none", callee: callee}
 		if recv != "" {
 			a.walk(fd.Body)
 		}
@@ -396,17 +411,58 @@ func ltTable(file, typ string, immutable []string) (map[string]string, error) {
 				segs = append(segs, s)
 			}
 		}
-		switch len(segs) {
-		case 0:
-			out[fd.Name.Name] = a.maxMode + " pure"
-		case 1:
-			out[fd.Name.Name] = segs[0].mode + " " + ltAccessName[segs[0].access]
-		default:
+		return a, segs
+	}
+	var methods []*ast.FuncDecl
+	recvOf := map[*ast.FuncDecl]string{}
+	for _, d := range f.Decls {
+		fd, ok := d.(*ast.FuncDecl)
+		if !ok || fd.Body == nil {
+			continue
+		}
+		t, recv := ltRecvTypeName(fd)
+		if t != typ {
+			continue
+		}
+		methods = append(methods, fd)
+		recvOf[fd] = recv
+	}
+	// pass 1: the critical sections each method has by itself
+	direct := map[string][]ltSeg{}
+	for _, fd := range methods {
+		_, segs := analyse(fd, recvOf[fd], nil)
+		direct[fd.Name.Name] = segs
+	}
+	// pass 2: including the critical sections of the receiver's own methods it calls
+	out := map[string]string{}
+	for _, fd := range methods {
+		a, segs := analyse(fd, recvOf[fd], direct)
+		var own []ltSeg
+		for _, s := range segs {
+			if !s.call {
+				own = append(own, s)
+			}
+		}
+		// check-then-act: a region that reads, then a different region that writes
+		checkThenAct := false
+		for i := range segs {
+			for j := i + 1; j < len(segs); j++ {
+				if segs[i].access == 1 && segs[j].access == 2 {
+					checkThenAct = true
+				}
+			}
+		}
+		switch {
+		case len(own) >= 2 || (checkThenAct && len(segs) >= 2):
 			parts := []string{"split"}
 			for _, s := range segs {
 				parts = append(parts, s.mode, ltAccessName[s.access])
 			}
 			out[fd.Name.Name] = strings.Join(parts, " ")
+		case len(own) == 1:
+			out[fd.Name.Name] = own[0].mode + " " + ltAccessName[own[0].access]
+		default: // touches the guarded fields only through complete operations of other methods
+			out[fd.Name.Name] = a.maxMode + " pure"
 		}
 	}
 	return out, nil
